@@ -132,6 +132,33 @@ def num_terms(params, const, extra_terms=()):
 CONSTS = ["0", "1", "2", "-1", "0.5", "3.25", "10", "100000", "-100000.5", "0.0001", "1e-3"]
 
 
+def const_value(e):
+    """value of an expression without fluents (None if it mentions a fluent or divides by zero)"""
+    if isinstance(e, str):
+        return float(e)
+    if e[0] not in ("+", "-", "*", "/"):
+        return None
+    l, r = const_value(e[1]), const_value(e[2])
+    if l is None or r is None:
+        return None
+    if e[0] == "/":
+        return None if r == 0 else l / r
+    return {"+": l + r, "-": l - r, "*": l * r}[e[0]]
+
+
+def always_zero(e):
+    """expressions that are zero whatever the fluents are: constant zero, a product with such a factor, a quotient with
+    such a numerator"""
+    v = const_value(e)
+    if v is not None:
+        return v == 0
+    if isinstance(e, list) and e[0] == "*":
+        return always_zero(e[1]) or always_zero(e[2])
+    if isinstance(e, list) and e[0] == "/":
+        return always_zero(e[1])
+    return False
+
+
 def num_exprs(rng, params, const, depth=1, extra_terms=()):
     leaves = num_terms(params, const, extra_terms)
 
@@ -142,8 +169,8 @@ def num_exprs(rng, params, const, depth=1, extra_terms=()):
             return rng.choice(leaves)
         op = rng.choice(["+", "-", "*", "/"])
         l, r = gen(d - 1), gen(d - 1)
-        if op == "/" and isinstance(r, str) and float(r) == 0.0:
-            r = "2"  # a division by the literal 0 has no meaning
+        if op == "/" and always_zero(r):
+            r = "2"  # a division by zero (the literal 0, (+ 0 0), (/ 0 x), (* 0 x) ...) has no meaning
         return [op, l, r]
 
     return gen(depth)
